@@ -1,8 +1,11 @@
 #!/bin/bash
 # tools_runall.sh [tier] : run every registered check sequentially, print exit code and wall time
 tier=${1:-quick}
+shift
 cd /verif
-for p in $(/venv/bin/python -c "import json;print(' '.join(c['property_id'] for c in json.load(open('MANIFEST.json'))['checks']))"); do
+ids="$@"
+[ -z "$ids" ] && ids=$(/venv/bin/python -c "import json;print(' '.join(c['property_id'] for c in json.load(open('MANIFEST.json'))['checks']))")
+for p in $ids; do
   s=$(date +%s.%N)
   ./check $p --tier $tier > /var/tmp/runall_$p.log 2>&1; rc=$?
   e=$(date +%s.%N)
